@@ -138,6 +138,21 @@ def r15_1(ctx: Ctx):
                        "both endpoints of a bond are translated through the number->position map, and they are the "
                        "two different endpoints of the record" + ("" if ends[0] != ends[1] else " -- endpoints: %s" % ends), node=t_)
     ctx.floor("R15.1", n_bonds, 1, "bond translation sites")
+    # validation of a bond's endpoints goes through the table as well: a range test on the atom *number* (against the
+    # number of atoms) assumes contiguous numbering from 1
+    for n_ in walk_no_nested(fn):
+        if isinstance(n_, ast.If) and any(isinstance(x, ast.Raise) for x in ast.walk(n_)):
+            t_ = n_.test
+            lens = [c_ for c_ in ast.walk(t_) if isinstance(c_, ast.Call) and call_name(c_) == "len" and c_.args
+                    and norm(c_.args[0]) in (atoms_list or "atoms", map_var)]
+            bond_loops = [a_ for a_ in walk_no_nested(fn) if isinstance(a_, ast.For) and any(n_ is x for x in ast.walk(a_)) and a_ is not loop]
+            loop_vars = {x.id for a_ in bond_loops for x in ast.walk(a_.target) if isinstance(x, ast.Name)}
+            reads_bond = any(isinstance(x, ast.Name) and x.id in loop_vars for x in ast.walk(t_))
+            ordering = any(isinstance(x, ast.Compare) and any(isinstance(o_, (ast.Lt, ast.LtE, ast.Gt, ast.GtE)) for o_ in x.ops) for x in ast.walk(t_))
+            if lens and reads_bond and ordering:
+                ctx.ob("R15.1", f, n_, False, "a bond's atom numbers are only ever looked up in the number->position table -- `%s` compares "
+                       "them with the number of atoms, which refuses valid files whose numbering has a gap or does not start at 1"
+                       % norm(t_)[:80], node=n_)
     # tuple order matches AtomTop's constructor
     at_init = ctx.func("AtomTop.__init__")
     mt_init = ctx.func("MoleculeTop.__init__")
